@@ -109,7 +109,19 @@ func NewUpServer(s *sim.Sim, w *vnet.World, seed uint64, spec plan.UpstreamSpec,
 		DefaultAns: plan.AnswerSpec{NAn: 1, TTLs: []uint32{300}, Shape: "plain"}}
 }
 
-func (u *UpServer) addr() string { return net.JoinHostPort(u.Spec.Host, strconv.Itoa(u.Spec.Port)) }
+func (u *UpServer) addr() string {
+	if strings.HasPrefix(u.Spec.Host, "@") {
+		return u.Spec.Host
+	}
+	return net.JoinHostPort(u.Spec.Host, strconv.Itoa(u.Spec.Port))
+}
+
+func (u *UpServer) streamNet() string {
+	if strings.HasPrefix(u.Spec.Host, "@") {
+		return "unix"
+	}
+	return "tcp"
+}
 
 func (u *UpServer) tlsConfig(alpn ...string) *tls.Config {
 	prof := u.Spec.TLS
@@ -273,7 +285,7 @@ type connCtl struct {
 }
 
 func (u *UpServer) startStream(useTLS bool) error {
-	ln, err := u.W.PeerListen("tcp", u.addr())
+	ln, err := u.W.PeerListen(u.streamNet(), u.addr())
 	if err != nil {
 		return err
 	}
@@ -358,7 +370,7 @@ func (u *UpServer) serveStream(raw *vnet.StreamConn, cfg *tls.Config) {
 }
 
 func (u *UpServer) startHTTP(useTLS bool) error {
-	ln, err := u.W.PeerListen("tcp", u.addr())
+	ln, err := u.W.PeerListen(u.streamNet(), u.addr())
 	if err != nil {
 		return err
 	}
